@@ -15,7 +15,7 @@ func init() {
 		ID: "C10", Level: "exploration", PanicClause: "C10.no_panic",
 		Cases: func(tier string) int {
 			if tier == "quick" {
-				return 6000
+				return 12000
 			}
 			return 450000
 		},
